@@ -22,7 +22,7 @@ CLAIMED = {
          "Structural necessary condition of the genesis round trip: every constant store prefix that consensus code writes is exported and re-imported by its module, every GenesisState field is assigned on export and consumed on import, every registered parameter key is exported. A missing table entry is state silently dropped by export/import. Validate(), JSON fidelity and continuation equivalence are not decided.",
          "Trusts dependencies; store keys are opened only through prefix.NewStore(ctx.KVStore(k.<key>), KeyPrefix(const)) (an unresolved prefix on a consensus path makes the check undecided, not passing).",
          "DESIGN.md §3 C18"),
- "C10": ("E2/E7: path-sensitive guard dominance over normalised branch predicates (flags expanded to the comparisons that set them) + argument provenance of keyed accesses and bank counter-parties; argument provenance of the verifying DID manager (created with the claimed owner); guard rows of UpdatePaymentAddress (who can be made the payer of a DID's orders); per-iteration decode targets (protobuf Unmarshal does not reset) in every loop",
+ "C10": ("E2/E7: path-sensitive guard dominance over normalised branch predicates (flags expanded to the comparisons that set them) + argument provenance of keyed accesses and bank counter-parties; argument provenance of the verifying DID manager (created with the claimed owner); guard rows of UpdatePaymentAddress (who can be made the payer of a DID's orders); per-iteration decode targets (protobuf Unmarshal does not reset) in every loop; who may extend the set of accounts bound to an existing DID (G-bound: submitter already bound)",
          "Structural necessary conditions of actor authorization, for all paths of Complete, Cancel, Ready, Migrate, Store (payer selection) and the five node handlers: every state-changing effect is reachable only through the comparisons that tie the signer to the provider/creator/payer it claims to be; node handlers key every record and coin movement by the signer, and GetSigners returns the Creator address. A reported bypass is a concrete branch sequence. Honesty of TxAddresses lists is not decided.",
          "Trusts dependencies; canonical access-path terms ignore aliasing through nested heap pointers; a boolean copied into a flag without ever being tested directly is not expanded (would be reported, not passed).",
          "DESIGN.md §3 C10"),
@@ -34,7 +34,7 @@ CLAIMED = {
          "Structural necessary conditions for fault reports: the 'never changes balances, orders, shards or other pledges' clause is proved as absence of capability over the call graph; every write is dominated by the registered-node and fishman tests; a report is persisted only after provider/metadata/order/data-id/shard-listed/holder/unexpired tests; self-recovery only for faults recorded against the signer. Penalty <= holdings (numeric) is not decided.",
          "Trusts dependencies; over-approximate call graph (absence of capability is sound, presence may be spurious).",
          "DESIGN.md §3 C19"),
- "C17": ("E2/E1: path-sensitive guard dominance for Binding/Update/UpdatePaymentAddress incl. for-all loops and helper summaries; data dependence of the signed payload; capability matrix of the binding tables; written record keys equal the keys the guards looked up; for-all accumulation of the reverse-index removal list over the forward removal list; forward-index splice-and-continue loops in module did",
+ "C17": ("E2/E1: path-sensitive guard dominance for Binding/Update/UpdatePaymentAddress incl. for-all loops and helper summaries; data dependence of the signed payload; capability matrix of the binding tables; written record keys equal the keys the guards looked up; for-all accumulation of the reverse-index removal list over the forward removal list; forward-index splice-and-continue loops in module did; exact-equality guard of the proven address with the account-id key on every success return of verifyBindingProof, followed into helpers (G-proof-addr)",
          "Structural necessary conditions of DID registry integrity for all paths and inputs of the three handlers: no table write without the tests the statement names; for-all requirements (every account handled, payment account never unbound) recognised as loops whose every iteration passes the test; the payload whose signature is verified must depend on the claimed DID and timestamp; binding tables written only from the handlers, genesis and the v2 migration. Whole-table agreement is not decided.",
          "Trusts signature primitives and dependencies; CAIP-10 parsing is the repo's own helper (not re-verified).",
          "DESIGN.md §3 C17"),
@@ -42,7 +42,7 @@ CLAIMED = {
          "Structural necessary conditions for the super-node role: promotion only under status mask AND capacity threshold AND delegation-share check (along every call chain); each failing requirement in the re-evaluation routine is followed by demotion; each share-affecting staking hook re-evaluates on every path and the hooks are registered with staking; capacity withdrawal re-tests after the decrement and demotes; Reset clears the role first; decision uses committed state only (D3). Agreement of the flag with the predicate over staking histories is not decided.",
          "Trusts the staking keeper's hook call protocol as documented in DESIGN §1; dependencies trusted.",
          "DESIGN.md §3 C20"),
- "C15": ("E2/E3: guard dominance and must-avoid over the two node producers, index selection and GetSps; provenance of RandomSP's result; for-all accumulation of ignore lists at the four call sites; def-use confinement of the unfiltered candidate list to the ignore filter; swap-only (permutation) check of every element store under SelectNodes; per-iteration decode targets in the node scans",
+ "C15": ("E2/E3: guard dominance and must-avoid over the two node producers, index selection and GetSps; provenance of RandomSP's result; for-all accumulation of ignore lists at the four call sites; def-use confinement of the unfiltered candidate list to the ignore filter; swap-only (permutation) check of every element store under SelectNodes; per-iteration decode targets in the node scans; splice-and-advance loops over the candidate list (T-splice-skip)",
          "Structural necessary conditions of replica placement for all node populations, ignore lists and seeds: a node is produced for selection only after the capacity/status/reputation(/role, not-ignored) tests; RandomSP returns only nodes from those producers; an index equal to an earlier one is never appended; GetSps succeeds only with 0 < replica <= selected; every RandomSP call gets an ignore list that accumulates every existing holder (nil only for a new order). Uniformity and the count bound as arithmetic are not decided; termination of RandomIndex is C02.",
          "Trusts dependencies; cyclic φ terms are compared by SSA identity where term text would be unstable.",
          "DESIGN.md §3 C15"),
@@ -70,11 +70,11 @@ CLAIMED = {
          "Topology and identity clauses of payment conservation: order escrow pays only the market escrow, the payer's/owner's payment address or the DID ledger; market escrow pays only order escrow, the claiming provider or the owner's payment address; Store and RenewOrder charge exactly once, exactly the amount they persist. Price formula, income accrual, refund arithmetic and the sum identity income + refunds = charged are runtime quantities and are NOT decided.",
          "Trusts dependencies; value identity is term identity plus 'no write to the variable after the charge'.",
          "DESIGN.md §3 C04"),
- "C05": ("E3/E2/E1: must-pass chain in CancelOrder, call-site preconditions (for-all shard removal or pending), refund only before completion, capability absence for reservation, schedule pairing, restore-from-own-last-element identities in RollbackMeta; modified-but-unpersisted local record analysis (T-persist: direct field stores and mutation through pointer-parameter helpers); list-provenance check of the schedule entry written back by removeDataExpireBlock",
+ "C05": ("E3/E2/E1: must-pass chain in CancelOrder, call-site preconditions (for-all shard removal or pending), refund only before completion, capability absence for reservation, schedule pairing, restore-from-own-last-element identities in RollbackMeta; modified-but-unpersisted local record analysis (T-persist: direct field stores and mutation through pointer-parameter helpers); list-provenance check of the schedule entry written back by removeDataExpireBlock; field-set agreement between the in-flight marker and the rollback (T-rollback-fields: every Metadata field UpdateMetaStatusAndCommit overwrites is assigned by RollbackMeta, through pointer-receiving callees)",
          "Structural necessary conditions of full refund and clean rollback: every success path of CancelOrder refunds the recorded amount (flow table), rolls the model back and removes the order, in that order; every caller first removes all shards or is on the pending branch, and never cancels a completed order; Store/Ready/timeout cannot write pledge records nor take provider coins (proved as absence of capability); removing a model removes its schedule entry. Balance deltas and re-assignment histories are not decided.",
          "Trusts dependencies; over-approximate call graph.",
          "DESIGN.md §3 C05"),
- "C11": ("E3/E1: typestate (period started => release scheduled at own end height) with path-sensitive search, capability tables for release and model deletion, for-all consumption of schedule entries, lifetime coupling, take-over stores dominating the migration hand-over; typestate in Complete: expiry scheduled and success => model lifetime extended; remaining-term data dependence at the hand-over; list provenance of the un-scheduling write-back; genesis pairing of the order/shard id counters",
+ "C11": ("E3/E1: typestate (period started => release scheduled at own end height) with path-sensitive search, capability tables for release and model deletion, for-all consumption of schedule entries, lifetime coupling, take-over stores dominating the migration hand-over; typestate in Complete: expiry scheduled and success => model lifetime extended; remaining-term data dependence at the hand-over; list provenance of the un-scheduling write-back; genesis pairing of the order/shard id counters; CancelOrder reachable only under order.Status != Completed (G-retain)",
          "Structural necessary conditions of retention and expiry: wherever a shard's paid period starts or rotates, every success path schedules its release at that shard's CreatedAt+Duration; shards are removed/collateral released only from the tabled operations; models are deleted only by Terminate and the model end-blocker; the end-blockers handle every id listed for the current height and drop the entry; the model is extended to the scheduled end height. 'Exactly that many blocks later' and exactly-once as temporal facts are not decided.",
          "Trusts dependencies; Renew is tabled for CAP-release only because the call graph is path-insensitive in UpdateMeta's operation switch.",
          "DESIGN.md §3 C11"),
